@@ -26,7 +26,7 @@ import lib
 PROP = 'C17'
 THEOREMS = [
     'C17_args_exact', 'C17_tx_exact', 'C17_belief_sound', 'C17_sent_exact',
-    'C17_unknown_db_sends_all', 'C17_keys_sound',
+    'C17_unknown_db_sends_all', 'C17_keys_sound', 'C17_noreturn_args_exact', 'C17_noreturn_tx_exact',
 ]
 REFUTED = ['C17_status2_refuted', 'C17_status2_args_refuted', 'C17_belief_refuted', 'C17_full_refuted',
            'C17_falsy_refuted', 'C17_partial_sync_refuted']
@@ -232,9 +232,9 @@ def gen_cases(tier):
         cases += [(h, 'exh2') for h in ex]
         r2 = lib.rng('C17exh3')
         ex3 = list(exhaustive(3))
-        cases += [(h, 'exh3s') for h in r2.sample(ex3, 3000)]
-        cases += [(gen_valid(r), 'valid') for _ in range(9000)]
-        cases += [(gen_edge(r), 'edge') for _ in range(2500)]
+        cases += [(h, 'exh3s') for h in r2.sample(ex3, 2000)]
+        cases += [(gen_valid(r), 'valid') for _ in range(6000)]
+        cases += [(gen_edge(r), 'edge') for _ in range(1500)]
     else:
         cases += [(h, 'exh2') for h in exhaustive(2)]
         cases += [(h, 'exh3') for h in exhaustive(3)]
@@ -299,10 +299,51 @@ def py_clean(h):
     return True
 
 
+def py_noreturn(h):
+    """mirror of Model.noret0 = forallb nn_req && no_return (compared with the extracted function on
+    every generated history): no None value, and per scope the supplied identities never return"""
+    t = {}
+
+    def sup(k, x):
+        if k not in t:
+            t[k] = [x, set()]
+            return True
+        cur, cl = t[k]
+        if x in cl:
+            return False
+        if cur != x:
+            cl.add(cur)
+            t[k][0] = x
+        return True
+
+    def five(db, us, gs, rc, dc, sc):
+        return (sup(('us', db), us) and sup('gs', gs) and sup(('rc', db), rc) and sup(('dc', db), dc)
+                and sup('sc', sc))
+    for o in h:
+        if o[0] == 'C':
+            if 0 in o[4:9] or not five(o[3], *o[4:9]):
+                return False
+        elif o[0] == 'T':
+            if not sup(('us', o[2]), o[3]):
+                return False
+        else:
+            if not (sup('gs', o[2]) and sup('sc', o[3])):
+                return False
+            for db, us, rc, dc in o[4]:
+                if not five(db, us, o[2], rc, dc, o[3]):
+                    return False
+    return True
+
+
 def monitor(h, items):
     """monitor_raw + : a history satisfying the hypothesis of the theorems (clean_hist) must not
     fail ANY monitor on the real code, known finding or not"""
     fl = monitor_raw(h, items)
+    if py_noreturn(h):
+        # hypothesis of C17_noreturn_args_exact / _tx_exact: stale ARGUMENTS are excluded even
+        # after status-2 replies (belief divergence and the cached tx state are not)
+        fl = [(i, k, t + ' [history satisfies no_return: C17_noreturn_* exclude this]' if c else t, None)
+              if k in ('args', 'tx-root') else (i, k, t, c) for i, k, t, c in fl]
     if py_clean(h):
         fl = [(i, k, t + ' [history satisfies clean_hist: the theorems exclude this]' if c else t, None)
               for i, k, t, c in fl]
@@ -399,8 +440,11 @@ def monitor_raw(h, items):
 
 
 # ---------------------------------------------------------------- run
+NPROC = {'st': 8, 'mt': 4}      # process start-up (importing edb under the stubs) costs ~6 CPU-s each
+
+
 def run_impl(lines, mode='st'):
-    return lib.parallel_lines([lib.PY, IMPL, lib.REPO, mode], lines, env=lib.impl_env())
+    return lib.parallel_lines([lib.PY, IMPL, lib.REPO, mode], lines, nproc=NPROC[mode], env=lib.impl_env())
 
 
 def strip_flags(s):
@@ -503,6 +547,8 @@ def coq_hist(h):
 def run(tier):
     rep = lib.Report(PROP, tier, 'proof')
     thorough = tier == 'thorough'
+    if thorough:
+        NPROC.update(st=16, mt=8)
     import time
     tm = {}
     t0 = [time.time()]
@@ -551,6 +597,11 @@ def run(tier):
         p = subprocess.run([exe, '--clean'], input='\n'.join(lines) + '\n', capture_output=True, text=True)
         clean = [x == '1' for x in p.stdout.split('\n')[:len(lines)]]
     clean_diff = [i for i, (h, c) in enumerate(zip(hs, clean)) if model is not None and py_clean(h) != c]
+    noret = [False] * len(lines)
+    if model is not None:
+        p = subprocess.run([exe, '--noreturn'], input='\n'.join(lines) + '\n', capture_output=True, text=True)
+        noret = [x == '1' for x in p.stdout.split('\n')[:len(lines)]]
+        clean_diff += [i for i, (h, c) in enumerate(zip(hs, noret)) if py_noreturn(h) != c]
 
     lap('monitors')
     # ---- multi-tenant path: monitors only
@@ -631,7 +682,7 @@ def run(tier):
                            'case': enc(small), 'impl_result': one_impl(small),
                            'model_result': lib.run_model(exe, [enc(small)])[0], 'disagreements': len(mism)}, False)
         if clean_diff:
-            rep.violation('harness py_clean differs from Model.clean_hist', {'broken': 'harness', 'case': lines[clean_diff[0]]}, False)
+            rep.violation('harness py_clean / py_noreturn differ from Model.clean_hist / noret0', {'broken': 'harness', 'case': lines[clean_diff[0]]}, False)
         if coq_diff:
             rep.violation('extracted model disagrees with vm_compute inside Coq',
                           {'broken': 'extraction', 'case': lines[coq_diff[0]]}, False)
@@ -674,7 +725,7 @@ def run(tier):
                 'free workers / restarts, with a fault placement per request (request lost, unpickle failure of '
                 'field 0-5 inside the worker, compiler exception, status-2 reply); streams: corpus, exhaustive '
                 f'depth-2 alphabet of {len(list(exhaustive(1)))} requests on 1 worker x 1 database (all), depth 3 '
-                f'({"all" if thorough else "3000 sampled"}), seeded valid server simulations (1-3 workers, 1-3 '
+                f'({"all" if thorough else "2000 sampled"}), seeded valid server simulations (1-3 workers, 1-3 '
                 'databases, fresh-identity or small-pool callers, tx chains), malformed/edge stream (None, b"", '
                 'unknown workers, bad init args). non-trivial = >= 2 requests, a value changed between two '
                 'requests on the same worker+database, and (a fault or a second worker or a tx request); '
@@ -685,6 +736,8 @@ def run(tier):
         'traces_validated_against_impl': len(cases) if model is not None else 0,
         'histories_satisfying_clean_hist (hypothesis of the theorems)': sum(clean),
         'clean_histories_nontrivial': len({l for l, h, c in zip(lines, hs, clean) if c and nontrivial(h)}),
+        'histories_satisfying_no_return (hypothesis of C17_noreturn_*)': sum(noret),
+        'no_return_histories_with_status2_fault': sum(1 for h, c in zip(hs, noret) if c and any(o[0] == 'C' and o[9] == 'r' for o in h)),
         'requests_compared': sum(len(h) for h in hs),
         'model_vs_impl_disagreements': len(mism),
         'coq_vm_compute_cross_checked': n_coq,
@@ -717,6 +770,7 @@ def run(tier):
         'the server never supplies None for a state value (histories with None are only compared with the model)',
         'C17_args_exact / C17_tx_exact / C17_belief_sound: every fault placement except a status-2 reply to compile*; '
         'every value (also empty maps) except None',
+        'C17_noreturn_*: every fault placement incl. status 2; no None; callers never return to an object they have left',
     ]
     return rep.finish()
 
@@ -935,7 +989,7 @@ def shrink_mt(h, pred_many):
 
 def run_mt(tier, rep, known):
     r = lib.rng('C17mt')
-    n = 4000 if tier == 'quick' else 40000
+    n = 3000 if tier == 'quick' else 40000
     hs = [gen_mt(r) for _ in range(n)]
     fixed = ['R 1 ; C 1 7 sq 1 2 4 8 10 6 n ; C 1 7 sq 1 2 4 8 100 6 n ; C 1 7 sq 1 2 4 8 10 6 n',
              'R 1 ; C 1 7 c1 1 2 4 8 10 6 n ; C 1 7 sq 1 12 14 8 10 6 u2 ; T 1 7 1 2 2 n',
